@@ -43,6 +43,8 @@ THEOREMS = [
     "rvbMove_rebond_target",
     "ex_isRvbMove",
     # (v) the proposal: exact model of build_cluster / WeightedBoundaryManager, proposal symmetry
+    "findConstants_spec",
+    "pickStart_owner",
     "proposal_depends_on_skeleton_only",
     "rvbMove_preserves_skeleton",
     "proposal_symmetric",
@@ -50,13 +52,16 @@ THEOREMS = [
     "rvb_detailed_balance_full",
     "rvb_detailed_balance_full_cfg",
     "ex_proposal",
+    "ex_skeleton_only",
     "edgeOpsNotConst_needed",
 ]
 
 RULE = ("rvb-updates: Ising samplers (frustrated triangle, triangle with unequal dyadic |J|, ring with one flipped bond, multi-edges, bow-tie with h != 0, random graphs, "
-        "underflow-prone low-temperature triangle, weak transverse field), thermalised, one proposed RVB update per case with the recorded draws and the traced region; "
-        "non-trivial = accepted and configuration changed, or rejected with p > 0; every proposal with p < EPSILON is re-run with the accept word forced to 0; "
-        "every 5th step k = 2..4 updates per sweep are compared with k single updates. helpers: remove_doubles on all sorted lists over {0,1,2} up to length 6 + random sorted/unsorted lists; "
+        "underflow-prone low-temperature triangle, weak transverse field, diluted triangle / ring / weak-field graphs with some J = 0), thermalised, one proposed RVB update per case with the recorded draws and the traced region; "
+        "non-trivial = accepted and configuration changed, or rejected with p > 0; every proposal with p < EPSILON is re-run with the accept word forced to 0, every proposal with 0 < p < 1 with accept words just below / above p*2^64; "
+        "every 5th step k = 2..4 updates per sweep are compared with k single updates. region: one case per proposed update of the same run (edges, operator string, full draw log) + 2 scripted J = 0 regressions; "
+        "non-trivial = the proposed region has >= 2 cells. timestep-embedded-rvb: per model two samplers with identical RNG streams, 24 (quick) / 40 (thorough) steps of timestep vs diagonal; rvb sweep; cluster (kind pipe, non-trivial = an RVB proposal was accepted inside timestep) "
+        "and the traced p_to_flip of the proposals up to the first accepted one per step (kind ptf, non-trivial = p != 1). helpers: remove_doubles on all sorted lists over {0,1,2} up to length 6 + random sorted/unsorted lists; "
         "find_overlapping_starts exhaustively for cutoff <= 5 (all position sets x p_start x p_end) + random cutoffs up to 40; "
         "calculate_mult on dyadic weight lists (k/8) with n in 0..5 incl. equal totals; contiguous_bits on every run length 0..64 + random words; "
         "BondContainer on random insert/remove/clear/contains/get_weight/get_random scripts over 7 keys with zero weights and draws 0, tiny, near-total, random. "
